@@ -17,14 +17,18 @@ import (
 //
 // valTypes      : the ValType constants of ast.go in iota order
 // bindvarCases  : the cases of normalizer.sqlToBindvar: (ValType, sqltypes type, validated) where
-//                 validated = the value goes through sqltypes.NewValue (which can fail and then
-//                 leaves the literal in place) instead of sqltypes.MakeTrusted
+//
+//	validated = the value goes through sqltypes.NewValue (which can fail and then
+//	leaves the literal in place) instead of sqltypes.MakeTrusted
+//
 // valueTokens   : grammar rule `value:` of sql.y – (token, ValTypes of the constructor called)
 // formatCases   : SQLVal.Format – (ValType, style) with style ∈ quoted|raw|hex|bit|estr|arg|unknown
 // nodes         : per AST type with a walkSubtree method (and per "carrier" struct that has none but
-//                 holds nodes): its shape (struct|slice|leaf), its fields in declaration order with
-//                 (name, nodeTyped, mayHoldLiteral) and the fields its walkSubtree visits, in order
-//                 ("*" = every element of a slice type, "F.X" = only sub-field X of the elements of F)
+//
+//	holds nodes): its shape (struct|slice|leaf), its fields in declaration order with
+//	(name, nodeTyped, mayHoldLiteral) and the fields its walkSubtree visits, in order
+//	("*" = every element of a slice type, "F.X" = only sub-field X of the elements of F)
+//
 // encodeMap     : sqltypes.encodeRef (byte → escape letter) and the `\x` prefix rule of encodeBytesSQL
 // logCalls      : per anchored file the logging calls and the identifiers their arguments mention
 func init() { generators = append(generators, genSqlLiterals) }
@@ -37,8 +41,8 @@ type sqlField struct {
 }
 
 type sqlPkg struct {
-	types   map[string]ast.Expr          // type name → underlying type expression
-	order   []string                     // declaration order
+	types   map[string]ast.Expr                 // type name → underlying type expression
+	order   []string                            // declaration order
 	methods map[string]map[string]*ast.FuncDecl // type → method name → decl
 	funcs   map[string]*ast.FuncDecl
 }
